@@ -252,6 +252,8 @@ class BerlekampMasseyDecoder(BaseBlockDecoder[Union[BCHCodeEncoder, ReedSolomonC
 
         # Process blockwise
         def decode_block(r_block):
+            # apply_blockwise passes (..., blocks, n): decode every block of every row
+            r_block = r_block.reshape(-1, self.code_length)
             batch_size = r_block.shape[0]
             decoded = torch.zeros(batch_size, self.code_dimension, dtype=received.dtype, device=received.device)
             errors = torch.zeros_like(r_block)
